@@ -56,7 +56,7 @@ GensInner(gs, i) == IF i > Len(gs) THEN {}
 \* names a statement binds in the scope it stands in
 SBound(s) ==
   CASE s.k = "assign" -> SeqSet(s.targets)
-    [] s.k = "augassign" -> {s.target}
+    [] s.k \in {"augassign", "del"} -> {s.target}          \* `del x` makes x a local of the scope as well
     [] s.k \in {"expr", "return", "break"} -> {}
     [] s.k = "for" -> SeqSet(s.targets) \cup SsBound(s.body) \cup SsBound(s.orelse)
     [] s.k \in {"while", "if"} -> SsBound(s.body) \cup SsBound(s.orelse)
@@ -70,13 +70,15 @@ SNeed(s) ==
   CASE s.k = "assign" -> EFree(s.value)
     [] s.k = "augassign" -> {s.target} \cup EFree(s.value)
     [] s.k \in {"expr", "return"} -> EFree(s.value)
-    [] s.k = "break" -> {}
+    [] s.k \in {"break", "del"} -> {}
     [] s.k = "for" -> EFree(s.iter) \cup SsNeed(s.body) \cup SsNeed(s.orelse)
     [] s.k \in {"while", "if"} -> EFree(s.test) \cup SsNeed(s.body) \cup SsNeed(s.orelse)
     [] s.k = "try" -> SsNeed(s.body) \cup EFree(s.extype) \cup SsNeed(s.handler) \cup SsNeed(s.final)
     [] s.k = "with" -> EFree(s.ctx) \cup SsNeed(s.body)
     [] s.k = "import" -> {}
+    \* decorators, defaults and annotations of a def are evaluated where the def statement stands
     [] s.k = "def" -> EsFree(s.decorators) \cup EsFree(s.params.defaults) \cup EsFree(s.params.kwdefaults)
+                      \cup EsFree(s.annots)
                       \cup (SsNeed(s.body) \ (ParamNames(s.params) \cup SsBound(s.body)))
 SsNeed(ss) == IF ss = <<>> THEN {} ELSE SNeed(Head(ss)) \cup SsNeed(Tail(ss))
 
